@@ -12,6 +12,7 @@ from tradingenv.broker.rebalancing import Rebalancing
 from tradingenv.events import EventNBBO
 
 from vf import gen
+from vf.ledger import Ledger
 
 PROP = "C12"
 LEVEL = "exploration"
@@ -28,7 +29,7 @@ RULE = ("Rebalancing.make_trades on generated (holdings, targets, quotes, thresh
 ASSUMPTIONS = ["ties within 1e-12 relative of the threshold / 1e-9 of an integer lot accept both outcomes",
                "whole-lot mode: the threshold is compared with the weight of the imbalance itself (untruncated), as the property words it"]
 REQUIRED = ["C12:exact-threshold", "C12:trade-set", "C12:trade-wellformed", "C12:fractional-quantity", "C12:whole-lot-truncation", "C12:no-exception"]
-REQUIRED_CATS = ["quoted-at-zero", "mode:contracts", "mode:balanced", "previewed-on-another-state", "via-portfolio-space", "whole-lot-with-fractional-holding", "mode:tiny", "mode:exact-at", "mode:exact-notch-below", "mode:exact-notch-above", "mode:at", "mode:below", "mode:above", "mode:sublot", "mode:absent-held", "whole-lot", "fractional"]
+REQUIRED_CATS = ["after-a-refused-request", "quoted-at-zero", "mode:contracts", "mode:balanced", "previewed-on-another-state", "via-portfolio-space", "whole-lot-with-fractional-holding", "mode:tiny", "mode:exact-at", "mode:exact-notch-below", "mode:exact-notch-above", "mode:at", "mode:below", "mode:above", "mode:sublot", "mode:absent-held", "whole-lot", "fractional"]
 REQUIRED_HITS = ["Rebalancing.make_trades"]
 TECHNIQUE = "runtime monitoring: reference model of the stated filtering rule compared with Rebalancing.make_trades on boundary-biased inputs"
 LEVEL_TEXT = ("Exploration with boundary-biased generation: the real make_trades is compared with an independent evaluation of the "
@@ -99,7 +100,11 @@ def case(ctx, i, tier):
             q[c] = (0.0, rng.choice([0.0, 0.0, 0.5]))
             ctx.cat("quoted-at-zero")
         ex.process_EventNBBO(EventNBBO(t, c, *q[c]))
-    b = Broker(ex, deposit=rng.choice([1e4, 1e6, 1e8]), fees=fees)
+    dep_ = rng.choice([1e4, 1e6, 1e8])
+    b = Broker(ex, deposit=dep_, fees=fees)
+    led = Ledger(dep_, fees)          # an independent account of what the positions are worth
+    for c in cs:
+        led.quote(c, *q[c])
     frac = rng.random() < 0.5
     measure = rng.choice(["weight", "weight", "nr-contracts"])
     for c in cs:
@@ -114,6 +119,26 @@ def case(ctx, i, tier):
                 else:
                     dq = float(int(dq)) or 1.0
             b.transact(Trade(t, c, dq, *q[c], fees))
+            led.trade(c, dq)
+    if rng.random() < 0.2:
+        # an EARLIER request on this account was refused while its trades were computed (it targeted a contract that
+        # has no quote); the caller caught the error, the market moved, and the request under test follows
+        try:
+            b.rebalance(Rebalancing(list(cs) + [ETF("NEVER_QUOTED")], [0.05] * len(cs) + [0.1], time=t))
+        except Exception:
+            pass
+        held = [c for c in cs if b.holdings_quantity.get(c, 0.0) != 0 and q[c][0] > 0]
+        gross_ = sum(abs(b.holdings_quantity.get(c, 0.0)) * q[c][1] * c.multiplier for c in cs)
+        if held and gross_ < 20 * b.net_liquidation_value(False):
+            c = rng.choice(held)
+            f = rng.uniform(0.996, 1.004)
+            q[c] = (q[c][0] * f, q[c][1] * f)
+            ex.process_EventNBBO(EventNBBO(t, c, *q[c]))
+            led.quote(c, *q[c])
+        # the imbalance weights of the request under test are relative to what the account is worth NOW
+        v_now = b.net_liquidation_value(False)
+        ctx.check("C12:weights-relative-to-current-value", abs(v_now - led.nlv()) <= 1e-9 * led.scale(), broker=v_now, ledger=led.nlv())
+        ctx.cat("after-a-refused-request")
     thr = rng.choice([0, 0, 0.01, 0.05, 0.2])
     nlv = b.net_liquidation_value()
     hold = b.holdings_quantity
